@@ -1,10 +1,12 @@
 import BeyondVerif.Model.CWF
 import BeyondVerif.Generated.CWHelperF
+import BeyondVerif.Generated.CWSeqSrcF
 import BeyondVerif.Drv.Util
 namespace BeyondVerif.Drv.C16
 open BeyondVerif BeyondVerif.Drv BeyondVerif.F
 
-/-- maneuvers: `i tm dx dy dz` | `c ts te ax ay az` (floats as bit patterns) -/
+/-- maneuvers: `i tm dx dy dz` | `c ts te ax ay az` | `d pos date duration ax ay az` (a burn declared as `ContinuousMan(date, duration,
+date_pos=start|median|stop)`, pos 0|1|2: its window is computed by `manStartSrc` / `manStopSrc`, translated from man.py) (floats as bit patterns) -/
 partial def parseMans : List String → Option (List Man)
   | [] => some []
   | "i" :: rest => do
@@ -12,6 +14,15 @@ partial def parseMans : List String → Option (List Man)
     let ms ← parseMans rest
     match fs with
     | [tm, dx, dy, dz] => pure (Man.imp tm [dx, dy, dz] :: ms)
+    | _ => none
+  | "d" :: rest => do
+    let (fs, rest) ← takeFloats 6 rest
+    let ms ← parseMans rest
+    match fs with
+    | [pos, date, dur, ax, ay, az] =>
+      let k := pos.toUInt64.toNat
+      if k > 2 then none
+      else pure (Man.cont (manStartSrc k date dur) (manStopSrc k date dur) [ax, ay, az] :: ms)
     | _ => none
   | "c" :: rest => do
     let (fs, rest) ← takeFloats 5 rest
